@@ -19,7 +19,7 @@ ID = "C06"
 TECHNIQUE = "stateless preemption-bounded exploration of all rank interleavings at collective/creation points of the real DDP distributor on simulated ranks (harness-owned transport and scheduler) x exhaustive gradient-presence histories; differential against the serial optimizer with rounding of the communicated quantity"
 RULE = (
     "W in {1,2,3,4} (thorough: +6,8) x every divisor group size x communicate_params x comm dtype {FP32,FP16,BF16} x 4 optimizer configs x param dtype {f32,f64} x all mask histories of depth 2 over 3 "
-    "parameters (64, incl. steps where all blocks of a rank lack gradients) + depth 3 over {all, none, single-absent} on the canonical schedule; all schedules with preemption bound <= B (1 quick, 2 thorough) "
+    "parameters (64, incl. steps where all blocks of a rank lack gradients) + depth 3 over {all, none, single-absent} on the canonical schedule; all schedules with preemption bound <= B (1 quick, 2 thorough; 3 for W=2 in the thorough tier) "
     "for W <= 3 on core histories; two param groups. state = (history prefix, rank states digest) after each step; non-trivial = execution with >= 2 ranks and a mask change or a starved rank"
 )
 ASSUMPTIONS = [
@@ -50,7 +50,7 @@ def layout_for(gs):
 
 
 def bounds(tier):
-    return {"W": [1, 2, 3, 4] + ([6, 8] if tier == "thorough" else []), "preemption_bound": 1 if tier == "quick" else 2, "depth": 2}
+    return {"W": [1, 2, 3, 4] + ([6, 8] if tier == "thorough" else []), "preemption_bound": 1 if tier == "quick" else 2, "preemption_bound_W2": 1 if tier == "quick" else 3, "depth": 2}
 
 
 def wg_pairs(tier):
@@ -115,6 +115,14 @@ def work(tier, seed):
                 cfg = seq.cfg_with(seed=seed, **L0, **oc)
                 for h in core:
                     units.append({"kind": "sched", "cfg": cfg, "W": W, "g": g, "comm": "BF16" if cp else "FP32", "cp": cp, "hists": [h], "bound": bound})
+    if tier == "thorough":
+        # two ranks, one optimizer configuration: every schedule with up to 3 deviations from the canonical order
+        oc = opt_cfgs(seed)[1]
+        for (W, g) in [(2, 2), (2, 1)]:
+            for cp in (False, True):
+                cfg = seq.cfg_with(seed=seed, **L0, **oc)
+                for h in core[:3]:
+                    units.append({"kind": "sched", "cfg": cfg, "W": W, "g": g, "comm": "BF16" if cp else "FP32", "cp": cp, "hists": [h], "bound": 3})
     return units
 
 
